@@ -25,3 +25,4 @@ def run(ctx):
     atomics.M5b(ctx)
     from . import guardvocab
     guardvocab.G0(ctx, effects={'backtrack', 'record-access', 'branch', 'explore'})
+    guardvocab.G1(ctx, effects={'backtrack', 'record-access', 'branch', 'explore'})
